@@ -175,12 +175,12 @@ fn mode_step(j: &J) -> String {
   format!("(stepobs {} {} (singles {}) {} {} (batch {} {}) {})", ra, s0, singles.join(" "), rb, b0, r, bk, if want_plan { plan_dump(&a) } else { "(plan)".to_string() })
 }
 
-fn run_bytes(bytes: &[u8]) -> (String, String, String, String) {
-  // returns (load, reencode, run, instrs)
+fn run_bytes(bytes: &[u8], want_restep: bool) -> (String, String, String, String, String) {
+  // returns (load, reencode, run, instrs, restep)
   let pp = match catch_unwind(|| ParsedProgram::from_bytes(bytes)) {
     Ok(Ok(p)) => p,
-    Ok(Err(e)) => return (errs(&e), "(na)".into(), "(na)".into(), "(instrs)".into()),
-    Err(_) => return ("(panic load)".into(), "(na)".into(), "(na)".into(), "(instrs)".into()),
+    Ok(Err(e)) => return (errs(&e), "(na)".into(), "(na)".into(), "(instrs)".into(), "(na)".into()),
+    Err(_) => return ("(panic load)".into(), "(na)".into(), "(na)".into(), "(instrs)".into(), "(na)".into()),
   };
   let re = match catch_unwind(AssertUnwindSafe(|| pp.to_bytes())) {
     Ok(Ok(b)) => if b == bytes { "(same)".to_string() } else { format!("(differs {})", b.len()) },
@@ -194,7 +194,15 @@ fn run_bytes(bytes: &[u8]) -> (String, String, String, String) {
     Ok(Err(e)) => errs(&e),
     Err(_) => "(panic run)".to_string(),
   };
-  ("(ok)".into(), re, run, format!("(instrs {})", instrs.join(" ")))
+  // re-evaluate the loaded program once (REPL step after load): informative, see Model/Bytecode.v restep
+  let restep = if !want_restep || run.starts_with("(err") || run.starts_with("(panic") { "(na)".to_string() } else {
+    match catch_unwind(AssertUnwindSafe(|| i2.step(0, 1))) {
+      Ok(Ok(v)) => canon(&v),
+      Ok(Err(e)) => errs(&e),
+      Err(_) => "(panic restep)".to_string(),
+    }
+  };
+  ("(ok)".into(), re, run, format!("(instrs {})", instrs.join(" ")), restep)
 }
 
 fn mode_bytecode(j: &J) -> String {
@@ -210,9 +218,9 @@ fn mode_bytecode(j: &J) -> String {
     Ok(Err(e)) => return format!("(bc {} {} (na) (na) (na) (instrs) {} \"\")", r, errs(&e), plan),
     Err(_) => return format!("(bc {} (panic compile) (na) (na) (na) (instrs) {} \"\")", r, plan),
   };
-  let (load, re, run, instrs) = run_bytes(&bc);
+  let (load, re, run, instrs, restep) = run_bytes(&bc, j.get("restep").is_some());
   let want_hex = j.get("hex").and_then(|x| x.as_bool()).unwrap_or(false);
-  format!("(bc {} (ok {}) {} {} {} {} {} {})", r, bc.len(), load, re, run, instrs, plan, qstr(&if want_hex { hex(&bc) } else { String::new() }))
+  format!("(bc {} (ok {}) {} {} {} {} {} {} {})", r, bc.len(), load, re, run, instrs, plan, qstr(&if want_hex { hex(&bc) } else { String::new() }), restep)
 }
 
 fn instr_sx(i: &DecodedInstr) -> String {
